@@ -216,6 +216,15 @@ def malformed_cases(tier):
         for i in range(len(lines)):
             t = '\n'.join(lines[:i] + lines[i + 1:]) + '\n'
             yield mkcase('malformed/%s/del-line%d' % (bn, i), 'malformed:line-deleted:' + seg_of(lines, i), 'input', nl=t)
+        # a whole segment missing (the header still announces it: an incomplete file), with and without the graph export,
+        # which prints every NL item before the conversion looks at it
+        starts = [i for i in range(10, len(lines)) if lines[i][:1] in 'CLOVrbkJGSdxF']
+        for a, i in enumerate(starts):
+            j = starts[a + 1] if a + 1 < len(starts) else len(lines)
+            t = '\n'.join(lines[:i] + lines[j:]) + '\n'
+            yield mkcase('malformed/%s/del-seg%d' % (bn, i), 'malformed:segment-deleted:' + seg_of(lines, i), 'input', nl=t)
+            yield mkcase('malformed/%s/del-seg%d+graph' % (bn, i), 'malformed:segment-deleted+writegraph:' + seg_of(lines, i), 'input', nl=t,
+                         env_opts='tech:writegraph=g.jsonl')
         for i in range(len(lines)):
             toks = re.split(r'(\s+)', lines[i])
             for j, tk in enumerate(toks):
@@ -240,6 +249,18 @@ def malformed_cases(tier):
             if k >= len(text):
                 continue
             yield mkcase('malformed/%s/trunc@%d' % (bn, k), 'malformed:truncated:' + seg_at(text, k), 'input', nl=text[:k])
+    # defined variables defined through themselves (directly, and two referring to each other)
+    dv = {n: m for f, n, m in flatgen.all_models('quick', ['dvars'])}
+    L = dv['dvar abs twice'].nl().split('\n'); i = [k for k, l in enumerate(L) if l[:1] == 'V'][0]
+    assert L[i] == 'V3 0 0' and L[i + 2] == 'v1'
+    L[i + 2] = 'v3'
+    L2 = dv['dvar chain'].nl().split('\n'); j = [k for k, l in enumerate(L2) if l[:1] == 'V'][0]
+    assert L2[j] == 'V3 0 0' and L2[j + 2] == 'v1' and L2[j + 3] == 'V4 1 0'
+    L2[j + 2] = 'v4'
+    for nm, t in (('self', '\n'.join(L)), ('cycle', '\n'.join(L2))):
+        yield mkcase('malformed/dvar-%s' % nm, 'malformed:defined-variable-through-itself:' + nm, 'input', nl=t)
+        yield mkcase('malformed/dvar-%s+graph' % nm, 'malformed:defined-variable-through-itself+writegraph:' + nm, 'input', nl=t,
+                     env_opts='tech:writegraph=g.jsonl')
     good = bases[0][1].nl()
     yield mkcase('malformed/empty-file', 'malformed:empty-file', 'input', nl='')
     yield mkcase('malformed/missing-file', 'malformed:missing-file', 'input', nl=None, stubmode='missing_nl')
@@ -331,6 +352,8 @@ BAD_OPTS = [   # (name, option string, regex the diagnosis must match, strict?)
     ('objno-9', 'objno=9', r'objno|obj:no', True), ('objno-neg', 'objno=-1', r'objno|obj:no', True),
     ('valid-then-unknown', 'timing=1 foo=1', r'foo', True),
     ('optionfile-missing', 'tech:optionfile=nonexistent.opt', r'nonexistent|optionfile', True),
+    ('optionfile-includes-itself', 'tech:optionfile=self.opt', r'self\.opt|option file', True),
+    ('optionfiles-include-each-other', 'tech:optionfile=a.opt', r'[ab]\.opt|option file', True),
     ('lone-equals', '=', r'(?i)=|empty option name', True),
     ('out-of-range', 'tech:int_example=1000', r'int_example|1000', False),
     ('out-of-range-neg', 'cvt:names=-1', r'names|-1', False), ('out-of-range-big', 'cvt:socp=99', r'socp|99', False),
@@ -447,7 +470,7 @@ def enumerate_cases(tier):
                 kw = {'post': ['-AMPL'] + o.split(' ')}
             extra = {}
             if 'optionfile' in o:
-                extra['files'] = {'opts.txt': 'tech:timing=1\n'}
+                extra['files'] = {'opts.txt': 'tech:timing=1\ntech:optionfile=opts2.txt\n', 'opts2.txt': '# second level\ntech:debug=1'}
             exp = {}
             if 'writemodelonly' in o:
                 exp['nosolve'] = True
@@ -455,6 +478,8 @@ def enumerate_cases(tier):
                             nl=oknl, expect=exp, **kw, **extra))
         for name, o, rx, strict in BAD_OPTS:
             kw = {'env_opts': o} if via == 'env' else {'post': ['-AMPL', o]}
+            if 'optionfile' in name and 'missing' not in name:
+                kw['files'] = {'self.opt': 'tech:optionfile=self.opt\n', 'a.opt': 'tech:timing=1\ntech:optionfile=b.opt\n', 'b.opt': 'tech:optionfile=a.opt\n'}
             C.append(mkcase('option/%s/bad/%s' % (via, name), 'option:%s(%s)' % (re.sub('-[sd]quote', '-quote', name), via), 'badopt' if strict else 'badopt_lenient', nl=oknl,
                             expect={'msg': rx}, **kw))
         # the same bad options on a model whose conversion would also fail / be infeasible
